@@ -600,7 +600,7 @@ func runC02(c *Ctx) {
 				bk = []string{drv.SingleName, "other-bucket"}
 			}
 			keys := []string{"k", "d/x", "d/y", "d/e/z"}
-			ghosts := []string{"k/below", "d/x/below/deeper", "d", "d/e", "kk", "d/xx", "d/e/z/z",
+			ghosts := []string{"k/below", "d/x/below/deeper", "d", "d/e", "kk", "d/xx", "d/e/z/z", "d/x/one", "d/y/one", "k/one",
 				// names no file system entry can have: a segment of 300 bytes, and a 230-byte key whose
 				// flattened metadata name is too long; never written, so reads say NoSuchKey and deletes succeed
 				strings.Repeat("g", 300), "d/" + strings.Repeat("g", 300) + "/x", "d/" + strings.Repeat("h", 228)}
@@ -632,7 +632,11 @@ func runC02(c *Ctx) {
 				case x < 16:
 					ops = append(ops, s3op{Kind: "list-buckets"})
 				case x < 42:
-					body := string(gen.Body(rng, rng.Intn(40), gen.PatRandom, uint32(idx*1000+len(ops))))
+					bl := rng.Intn(40)
+					if rng.Intn(5) == 0 {
+						bl = 0 // zero-length objects ("folder markers") are objects like any other
+					}
+					body := string(gen.Body(rng, bl, gen.PatRandom, uint32(idx*1000+len(ops))))
 					tag := ""
 					if prev, ok := lastBody[b+"/"+k]; ok && rng.Intn(5) == 0 {
 						// the same bytes again, with other metadata
